@@ -10,4 +10,6 @@ Definition z_quotrem := Z.quotrem.
 Definition z_ltb := Z.ltb.
 Extraction "c05m.ml" keep_types cookies_save cookies_load encrypt decrypt aes_combined_keys pool_decide hmac_key_ok
   encode_str decode_str le64_enc le64_dec prepare pool_config load_unusable session_save_data
+  obj_fresh obj_step obj_run cookies_obj_save cookies_obj_load cookies_obj_run cbc_key_size
+  kv_set_all session_load_data si_save_decide zeros16
   z_add z_mul z_opp z_quotrem z_ltb.
